@@ -152,6 +152,13 @@ def run_real(scen, workdir, rng=None):
                 obs['log'].append(f'C{keyidx.get(repr(tm.current_pass), -1)}.{files.index(str(env.test_case))}.{ids.get(env.test_case_path.read_text(), -1)}')
                 return opr(env)
             tm.process_result = pr
+            orp = tm.run_pass
+            obs['marked'] = []
+
+            def rp(pass_):
+                obs['marked'].append(('P', keyidx.get(repr(pass_), -1), len(obs['log'])))
+                return orp(pass_)
+            tm.run_pass = rp
             try:
                 if scen.get('mode') == 'pass':
                     tm.run_pass(passes[scen['groups']['main'][0]])
@@ -239,3 +246,75 @@ def render_obs(scen, obs):
     tot = [sum(obs['stats'].get(i, (0, 0, 0))[j] for i in range(n)) for j in range(3)]
     return (f"{obs['outcome']} disk={','.join(map(str, obs['disk'])) or '-'} worked={tot[0]} failed={tot[1]} executed={tot[2]} "
             f"bug={obs['bug']} extra={obs['extra']} stats={stats} log={','.join(obs['log']) or '-'}")
+
+
+# ------------------------------------------------------------------ real passes (text passes) under the shim
+_PCUR = {}
+
+
+def _patched_run_test_pred(self, verbose):
+    files = {f: (self.folder / f).read_text() for f in _PCUR['files']}
+    _PCUR['invocations'].append(dict(files))
+    return 0 if _PCUR['pred'](files) else 1
+
+
+def run_real_textpass(pass_obj, files, pred, N, ctl, workdir, cache=False, consts=None):
+    """run_pass of a real pass object on real files with an in-process predicate; returns observations"""
+    workdir = Path(workdir)
+    cwd0 = os.getcwd()
+    tmpd = workdir / 'tmp'
+    tmpd.mkdir()
+    wd = workdir / 'wd'
+    wd.mkdir()
+    old_tmp = os.environ.get('TMPDIR')
+    os.environ['TMPDIR'] = str(tmpd)
+    tempfile.tempdir = None
+    os.chdir(wd)
+    for f, t in files.items():
+        Path(f).parent.mkdir(parents=True, exist_ok=True)
+        Path(f).write_text(t)
+    Path('t.sh').write_text('#!/bin/sh\nexit 0\n')
+    os.chmod('t.sh', 0o755)
+    _PCUR.clear()
+    _PCUR.update(files=list(files), pred=pred, invocations=[])
+    saved_rt = testing.TestEnvironment.run_test
+    testing.TestEnvironment.run_test = _patched_run_test_pred
+    obs = {'outcome': 'ok', 'accepted': []}
+    out = io.StringIO()
+    logger = logging.getLogger()
+    saved_level = logger.level
+    logger.setLevel(logging.WARNING)
+    try:
+        with shim.Installed(ctl), contextlib.redirect_stdout(out), contextlib.redirect_stderr(out):
+            tm = testing.TestManager(statistics.PassStatistic(), 't.sh', 10, False, list(files), N, not cache, True,
+                                     False, False, False, None, False, None, None, None, 1.0)
+            opr = tm.process_result
+
+            def pr(env):
+                obs['accepted'].append((str(env.test_case), env.test_case_path.read_text()))
+                return opr(env)
+            tm.process_result = pr
+            if not hasattr(pass_obj, 'max_transforms'):
+                pass_obj.max_transforms = None
+            try:
+                tm.run_pass(pass_obj)
+            except BaseException as e:  # noqa
+                obs['outcome'] = type(e).__name__
+                obs['error_text'] = str(e)[:300]
+            st = tm.pass_statistic.stats.get(repr(pass_obj))
+            obs['stats'] = (st.worked, st.failed, st.totally_executed) if st else (0, 0, 0)
+    finally:
+        testing.TestEnvironment.run_test = saved_rt
+        logger.setLevel(saved_level)
+    obs['final'] = {f: Path(f).read_text() for f in files}
+    obs['tmp_left'] = sorted(x for x in os.listdir(tmpd) if not x.startswith('pymp-'))
+    obs['wd_listing'] = sorted(str(p.relative_to(wd)) for p in wd.rglob('*') if p.is_file())
+    obs['scheduled'] = len(ctl.scheduled)
+    obs['stdout'] = out.getvalue()[-300:]
+    os.chdir(cwd0)
+    if old_tmp is None:
+        os.environ.pop('TMPDIR', None)
+    else:
+        os.environ['TMPDIR'] = old_tmp
+    tempfile.tempdir = None
+    return obs
